@@ -8,6 +8,7 @@ import (
 	"fmt"
 	"net"
 	"net/http"
+	"net/url"
 	"strings"
 	"time"
 
@@ -215,7 +216,8 @@ func clientTunnelHTTPRequestTarget(u *base.URL) string {
 		return "/"
 	}
 
-	ret := u.Path
+	// the path goes into a HTTP request line: it must be escaped, like in RTSP request lines.
+	ret := (*url.URL)(u).EscapedPath()
 	if ret == "" {
 		ret = "/"
 	}
